@@ -249,3 +249,8 @@ CHECK = Check(
         "non-termination is decided deterministically: select() asked to wait with nothing scheduled, or more than 2000 socket calls without progress",
     ],
 )
+
+# thorough tier: the same strategy and oracle driven by the coverage-guided engine (pbt/covfuzz.py)
+from ..covfuzz import cov_layer  # noqa: E402
+
+CHECK.layers.append(cov_layer("C04", CHECK.layer("socket"), runs=8000, time_s=100))
